@@ -9,8 +9,8 @@ def run(tier):
         "model, reset explicitly as in the code; FinalIsSumOfContributions and PerRecordContribution make the result "
         "additive and order-free for ALL histories in the bound (every ordering of every multiset is its own behaviour); "
         "the library replay compares the site delivered for each record after every prefix history.",
-        ["MCCreate_hist_quick.cfg", "MCCreate_fmt.cfg", "MCCreate_cache.cfg"],
-        ["MCCreate_hist_t1.cfg", "MCCreate_hist_t2.cfg", "MCCreate_fmt.cfg", "MCCreate_cache.cfg"],
+        ["MCCreate_hist_quick.cfg", "MCCreate_fmt.cfg", "MCCreate_cache.cfg", "MCCreate_private.cfg"],
+        ["MCCreate_hist_t1.cfg", "MCCreate_hist_t2.cfg", "MCCreate_fmt.cfg", "MCCreate_cache.cfg", "MCCreate_private.cfg"],
         [SAB_RESET, SAB_SCRATCH])
     # cohort-size histories with projection in two orders (CreateLarge.tla): nothing computed for one record may
     # influence another, also not through caches inside the hypergeometric weights
